@@ -23,6 +23,9 @@ var c16EndToEnd = func(c *fw.Ctx) {
 	for r := 0; r < rounds; r++ {
 		// a table of 3-6 users, mixed line shapes
 		k := 3 + rg.Intn(4)
+		if r%6 == 4 {
+			k = 0 // an empty credential store: everybody is refused
+		}
 		perm := rg.Perm(len(c16Users))[:k]
 		table := []c16Entry{}
 		for _, ui := range perm {
@@ -38,7 +41,7 @@ var c16EndToEnd = func(c *fw.Ctx) {
 		}
 		path := filepath.Join(dir, fmt.Sprintf("cred-%d.csv", r))
 		os.WriteFile(path, []byte(strings.Join(lines, "\n")+"\n"), 0600)
-		static := r%3 == 2
+		static := r%3 == 2 && k > 0
 		var h auth.AuthenticationHandler
 		var err error
 		if static {
@@ -60,9 +63,15 @@ var c16EndToEnd = func(c *fw.Ctx) {
 		}
 		func() {
 			defer cl.Close()
-			cands := []c16Cand{{"nobody", "x"}, {"", ""}, {table[0].User, "wrong"}, {table[0].User, table[0].Pass}}
-			for _, e := range table[1:] {
-				cands = append(cands, c16Cand{e.User, e.Pass}, c16Cand{e.User, table[0].Pass})
+			cands := []c16Cand{{"nobody", "x"}, {"", ""}, {"alice", c16Pass("alice")}}
+			if k > 0 {
+				cands = append(cands, c16Cand{table[0].User, "wrong"}, c16Cand{table[0].User, table[0].Pass})
+				for _, e := range table[1:] {
+					cands = append(cands, c16Cand{e.User, e.Pass}, c16Cand{e.User, table[0].Pass})
+				}
+				for _, a := range c16Absent[:4] {
+					cands = append(cands, c16Cand{a, table[rg.Intn(k)].Pass})
+				}
 			}
 			for ci, cd := range cands {
 				want := false
